@@ -14,6 +14,7 @@
 //   pair <N> <op> <a>       C09 twin step, see pairOp()
 //   paircheck <N>           C09 state comparison of the retained, non-outdated part
 #include "world.hpp"
+#include <unistd.h>
 
 using namespace altintegration;
 using vw::Instance;
@@ -22,6 +23,7 @@ struct StoreSession : public vw::Session {
   std::map<std::string, std::shared_ptr<adaptors::InmemStorageImpl>> snaps;
   std::map<std::string, std::string> lastFinal;  // instance -> id of its last observed final ALT block
   std::string curId;                              // id of the line being executed (for oracle_fail)
+  std::string phase = "-";                        // name of the instance currently executing (reported on ABORT)
 
   // ------------------------------------------------------------------ helpers
   template <typename Tree>
@@ -201,6 +203,18 @@ struct StoreSession : public vw::Session {
   //      other -> executed on F only (the block can never matter again); N is not touched.
   //  * otherwise the op runs on both; the answers must be equal.
   //  afterwards: both active tips equal; every block that was final in F before is still on F's active chain.
+  bool belowVbkHorizon(Instance& F, const std::string& a) {
+    int root = F.tree.vbk().getRoot().getHeight();
+    if (root == 0) return false;
+    for (auto& x : reg->ancestry(a)) {
+      auto* i = F.idx(x);
+      if (i == nullptr || i->hasFlags(BLOCK_ACTIVE)) continue;  // deallocated (final) history or already applied
+      auto& info = reg->alt.at(x);
+      for (auto& v : info.pd.context)
+        if (v.getHeight() < root) return true;
+    }
+    return false;
+  }
   std::string pairOp(Instance& F, const std::string& fname, const std::vector<std::string>& t) {
     if (t.size() < 4) return "BAD";
     auto itN = inst.find(t[1]);
@@ -212,6 +226,7 @@ struct StoreSession : public vw::Session {
     bool out = outdated(fin, a);
     std::string res;
     auto run = [&](Instance& I) -> std::string {
+      phase = (&I == &F) ? fname : t[1];
       if (op == "hdr") return hdrGuarded(I, a);
       if (op == "body") return I.body(a);
       if (op == "set") return I.setState(a);
@@ -237,9 +252,15 @@ struct StoreSession : public vw::Session {
       } else {
         res = "outdated " + run(F);
       }
+    } else if ((op == "set" || op == "cmp") && belowVbkHorizon(F, a)) {
+      // the candidate's bodies carry VBK context older than F's VBK root (an ALT fork whose VBK knowledge is
+      // older than the VBK finalization horizon): not an honest later block under these toy parameters
+      res = "SKIP vbk-horizon";
     } else {
       auto rf = run(F);
-      auto rn = run(N);
+      // the op would touch a final block of F (invalidate / remove / unapply it): outside the documented
+      // precondition for F, so it is not a later operation the twins can be compared on
+      auto rn = rf.rfind("SKIP final", 0) == 0 ? rf : run(N);
       if (rf != rn)
         vh::oracle_fail(curId, "twin-answer-differs op=" + op + " " + a + " F=" + rf + " N=" + rn + " final=" + fin);
       res = rf;
@@ -374,6 +395,8 @@ struct StoreSession : public vw::Session {
       return "ok";
     }
     if (op == "drop") { inst.erase(t[1]); return "ok"; }
+    if (op == "on" && t.size() >= 2) phase = t[1];
+    if (op == "clone" || op == "fromsnap") phase = t[2];
     if (op == "on" && t.size() >= 4 && t[2] == "hdr") {
       auto it = inst.find(t[1]);
       if (it == inst.end()) return "SKIP noinst";
@@ -388,14 +411,65 @@ struct StoreSession : public vw::Session {
   }
 };
 
+struct ErrLogger : public altintegration::Logger {
+  void log(altintegration::LogLevel, const std::string& m) override { fprintf(stderr, "%s\n", m.c_str()); }
+};
+
+// VBK_ASSERT ends in std::terminate(). To keep one process per check (MockMiner start-up costs seconds) the
+// terminate handler jumps back into the line loop: the line is answered "ABORT in=<instance>", the session is
+// leaked (its trees are in an undefined state) and every line up to the next `begin` is answered "DEAD".
+#include <csetjmp>
+#include <exception>
+static std::jmp_buf g_env;
+static volatile bool g_armed = false;
+static void onTerminate() {
+  if (g_armed) std::longjmp(g_env, 1);
+  std::abort();
+}
+
 int main() {
-  altintegration::SetLogger<altintegration::Logger>(altintegration::LogLevel::off);
+  const char* lv = getenv("VERIF_LOG");  // debugging aid: VERIF_LOG=debug prints the library log to stderr
+  if (lv) altintegration::SetLogger<ErrLogger>(altintegration::StringToLevel(lv));
+  else altintegration::SetLogger<altintegration::Logger>(altintegration::LogLevel::off);
   altintegration::setMockTime(1700000000);
-  StoreSession s;
-  return vh::main_loop([&](const std::string& id, const std::string& op, const std::vector<std::string>& a) {
-    std::vector<std::string> t{op};
-    t.insert(t.end(), a.begin(), a.end());
-    s.curId = id;
-    return s.top(t);
-  });
+  std::set_terminate(onTerminate);
+  StoreSession* s = new StoreSession();
+  bool dead = false;
+  std::ios::sync_with_stdio(false);
+  std::string line;
+  while (std::getline(std::cin, line)) {
+    auto t = vh::split(line);
+    if (t.size() < 2) continue;
+    std::string id = t[0];
+    std::vector<std::string> a(t.begin() + 1, t.end());
+    std::string r;
+    if (dead && a[0] != "begin") {
+      std::cout << id << " DEAD\n";
+      continue;
+    }
+    if (dead) {
+      s = new StoreSession();  // the old one is leaked on purpose
+      dead = false;
+    }
+    s->curId = id;
+    s->phase = "-";
+    if (setjmp(g_env) == 0) {
+      g_armed = true;
+      try {
+        r = s->top(a);
+      } catch (const std::exception& e) {
+        r = std::string("THROW ") + typeid(e).name();
+      } catch (...) {
+        r = "THROW unknown";
+      }
+      g_armed = false;
+    } else {
+      g_armed = false;
+      r = "ABORT in=" + s->phase;
+      dead = true;
+    }
+    std::cout << id << " " << r << "\n";
+  }
+  std::cout.flush();
+  _exit(0);  // skip destructors of leaked / live sessions
 }
